@@ -6,6 +6,8 @@ V = os.path.dirname(os.path.dirname(os.path.abspath(__file__)))
 conf = json.load(open(os.path.join(V, "checks.json")))
 props = [json.loads(l) for l in open(os.path.join(V, "properties.jsonl")) if l.strip()]
 na_reasons = conf.get("_not_applicable", {})
+import subprocess
+HOOK_COMMITS = subprocess.check_output(["git", "-C", "/repo", "log", "--format=%H", "--grep", "^verif hook:"]).decode().split()
 checks, na = [], []
 for p in props:
     pid = p["id"]
@@ -29,9 +31,9 @@ m = {
     "setup_cmd": "cd /verif/tool && GOFLAGS=-mod=mod GOPROXY=off go build -o /verif/bin/gosymx ./cmd/gosymx",
     "hooks": {
         "guard": "verif",
-        "enable": "no source hooks: harnesses and the verif API package are injected through go build overlays (go/packages Overlay for the symbolic run, go test -overlay for native replay); nothing under /repo is modified",
+        "enable": "harnesses and the verif API package are injected through go build overlays (go/packages Overlay for the symbolic run, go test -overlay for native replay); the only source hook is log.VerifYield (build tag 'verif': a callback at every debug log call, used as yield point for event injection during native replay), enabled with `go test -tags verif`",
         "baseline_off_cmd": "cd /repo && GOFLAGS=-mod=mod GOPROXY=off go test -vet=off -count=1 ./...",
-        "source_commits": [],
+        "source_commits": HOOK_COMMITS,
         "add_only": True,
     },
     "engines": [{
